@@ -6,6 +6,8 @@
 (*                ev.side was rewritten (C33: side s, judged: the uTLS     *)
 (*                client; C34: side c, judged: the server)                 *)
 (*   t = "alloc": the same scenario run alone with allocation accounting   *)
+(*   t = "rec":   a raw record in place of / after a protected record      *)
+(*   t = "post":  post-handshake server sequence, then Read/Write/Close    *)
 (*   t = "raw":   a (mutated) ClientHello record given to the importers    *)
 (*   t = "doc":   a (mutated) JSON spec / tlsfingerprint.io map            *)
 (* Every row is judged; a row the specification does not accept goes to    *)
@@ -42,6 +44,34 @@ ConnWhy(ev) ==
        ELSE IF sut.elapsed_ms > ev.deadline_ms + SlackMs THEN "late"
        ELSE IF sut.alert \notin Alerts THEN "alert"
        ELSE ""
+
+\* what every call on hostile input must look like
+CallWhy(o, deadline_ms) ==
+  IF o.outcome = "panic" THEN "panic"
+  ELSE IF o.outcome = "hang" THEN "hang"
+  ELSE IF o.outcome \notin Outcomes THEN "outcome"
+  ELSE IF o.elapsed_ms > deadline_ms + SlackMs THEN "late"
+  ELSE ""
+
+\* a raw record where a protected one is expected
+RecWhy(ev) ==
+  LET sut == IF ev.side = "s" THEN ev.client ELSE ev.server IN
+  IF ~ev.applied \/ ev.mut_len # Len(ev.raw) \/ ev.mut_sum # Digest(ev.raw) THEN "binding"
+  ELSE IF ev.where = "replace" /\ ev.rep_hdr # ev.hdr THEN "layout"
+  ELSE IF CallWhy(sut, ev.deadline_ms) # "" THEN CallWhy(sut, ev.deadline_ms)
+  ELSE IF sut.alert \notin Alerts THEN "alert"
+  ELSE ""
+
+\* post-handshake phase: the harness did what was chosen, and every client call came back in time
+PostWhy(ev) ==
+  IF ~ev.ready THEN "baseline-failed"
+  ELSE IF ev.sent # ev.seq \/ ev.transport # ev.tr \/ Len(ev.calls) < 3
+          \/ ev.calls[Len(ev.calls)].call # "Close" \/ ev.calls[Len(ev.calls) - 1].call # "Write" \/ ev.calls[1].call # "Read" THEN "binding"
+  ELSE IF \E j \in DOMAIN ev.calls : ev.calls[j].outcome = "panic" THEN "panic"
+  ELSE IF \E j \in DOMAIN ev.calls : ev.calls[j].outcome = "hang" THEN "hang"
+  ELSE IF \E j \in DOMAIN ev.calls : ev.calls[j].outcome \notin Outcomes THEN "outcome"
+  ELSE IF \E j \in DOMAIN ev.calls : ev.calls[j].ret_ms > CallLimitMs(ev.calls[j], ev.deadline_ms) + SlackMs THEN "late"
+  ELSE ""
 
 \* allocation: the untouched flight of the same case, run the same way, is the yardstick
 BaseKB(case) == LET S == {i \in DOMAIN Trace : Trace[i].t = "alloc" /\ Trace[i].op = "none" /\ Trace[i].case = case} IN
@@ -80,6 +110,8 @@ DocWhy(ev) ==
 Judge(ev) ==
   CASE ev.t = "conn"  -> [why |-> ConnWhy(ev),  valid |-> FALSE, usable |-> FALSE]
     [] ev.t = "alloc" -> [why |-> AllocWhy(ev), valid |-> FALSE, usable |-> FALSE]
+    [] ev.t = "rec"   -> [why |-> RecWhy(ev),   valid |-> FALSE, usable |-> FALSE]
+    [] ev.t = "post"  -> [why |-> PostWhy(ev),  valid |-> FALSE, usable |-> FALSE]
     [] ev.t = "raw"   -> RawJudge(ev)
     [] ev.t = "doc"   -> [why |-> DocWhy(ev),   valid |-> FALSE, usable |-> FALSE]
     [] OTHER          -> [why |-> "unknown-row", valid |-> FALSE, usable |-> FALSE]
